@@ -1,15 +1,42 @@
 //! Bounded multi-producer single-consumer queue.  `send` is `Pending` while the queue is full,
 //! `recv` is `Pending` while it is empty and a sender is alive.
 use std::cell::RefCell;
-use std::collections::VecDeque;
 use std::fmt;
 use std::future::Future;
 use std::pin::Pin;
 use std::rc::Rc;
 use std::task::{Context, Poll};
 
+/// FIFO as a grow-only vector of slots plus a head index (VecDeque's ring arithmetic makes
+/// CBMC run out of memory).
+struct Fifo<T> {
+    slots: Vec<Option<T>>,
+    head: usize,
+}
+
+impl<T> Fifo<T> {
+    fn new() -> Self {
+        Fifo { slots: Vec::new(), head: 0 }
+    }
+    fn len(&self) -> usize {
+        self.slots.len() - self.head
+    }
+    fn push_back(&mut self, v: T) {
+        self.slots.push(Some(v));
+    }
+    fn pop_front(&mut self) -> Option<T> {
+        if self.head < self.slots.len() {
+            let v = self.slots[self.head].take();
+            self.head += 1;
+            v
+        } else {
+            None
+        }
+    }
+}
+
 struct Chan<T> {
-    queue: VecDeque<T>,
+    queue: Fifo<T>,
     cap: usize,
     senders: usize,
     rx_alive: bool,
@@ -26,7 +53,7 @@ pub struct Receiver<T> {
 pub fn channel<T>(cap: usize) -> (Sender<T>, Receiver<T>) {
     assert!(cap > 0, "mpsc bounded channel requires buffer > 0");
     let chan = Rc::new(RefCell::new(Chan {
-        queue: VecDeque::new(),
+        queue: Fifo::new(),
         cap,
         senders: 1,
         rx_alive: true,
